@@ -508,6 +508,14 @@ class Contour(BaseObject):
         self.disableNotifications(observer=self)
         self.postNotification("Contour.PointsChanged")
         self.enableNotifications(observer=self)
+        # only the two representations patched above may survive:
+        # everything else that Contour.PointsChanged destroys
+        # must still be destroyed.
+        for name, dataDict in self.representationFactories.items():
+            if name in ("defcon.contour.bounds", "defcon.contour.controlPointBounds"):
+                continue
+            if "Contour.PointsChanged" in dataDict["destructiveNotifications"]:
+                self.destroyRepresentation(name)
         self.dirty = True
 
     # ------------
